@@ -796,6 +796,13 @@ add_flush_events(uint64_t t0, uint64_t t1)
 	post.header.clock = t1;
 	ovni_ev_set_mcv(&post, "OF]");
 
+	/* Ensure both markers fit: a large event may have left less room
+	 * than they need, and flushing from within ovni_ev_add() would nest
+	 * a second pair of markers with older clocks inside this one. */
+	if (rthread.evlen + sizeof(pre.header) + sizeof(post.header)
+			>= OVNI_MAX_EV_BUF)
+		flush_evbuf();
+
 	/* Add the two flush events */
 	ovni_ev_add(&pre);
 	ovni_ev_add(&post);
